@@ -108,6 +108,29 @@ CLAIMED["C11"] = dict(
    design="§5 C11")
 NOT_YET = {}
 
+# what later rounds added to a property's claim (sub-checks, theorems, findings), appended to the texts above
+EXTRA = {
+ "C01": dict(text=" Round 7: a read that names a digest and ends cleanly hashes to the digest that was ASKED for, whatever Docker-Content-Digest header the response carries (requested_digest_verified, after fix F31).",
+             note=" F31 (the client verified content against the response's digest header, not the requested digest) was found and fixed."),
+ "C03": dict(text=" Sub-check C03C ties the client half to the source as C06S ties the server half: every ocirequest.Request literal in ociclient is regenerated with the provenance of each field, and client_request_literal / client_request_site / client_known_digest prove that the request the model sends for each of the 17 literal-built calls is the one that literal denotes (a swapped Repo/FromRepo or a Tag sent as Digest breaks an obligation). After fix F31 the transparency theorems assume a backend that answers a read by digest with that digest (Faithful), and client_reports_requested_digest / wire_reports_requested_digest state the new guarantee unconditionally.",
+             technique="Lean 4 proof (request codec round trip; response codec; composed client/wire/server model; regenerated server handler table and client request table) + differential traces direct vs. HTTP stack"),
+ "C05": dict(text=" Round 7: merge_never_silently_short - a member that delivered items and then failed (NAME_UNKNOWN included) makes the unified listing end in an error (fix F34).",
+             note=" F34 (the unifier dropped NAME_UNKNOWN after items: a silently shortened listing) was found and fixed."),
+ "C08": dict(text=" Round 7: the commit lock added by fix F33 is in the interleaving model (regenerated fact wholeBodyLocks, obligation generated_commit_serialized, predicate CommitSerial): commit_reports_own_digest - for every schedule that respects the lock, with arbitrary other steps between, a successful Commit reports the digest it was asked for and the bytes that were checked are stored under it; dual_commit_anomaly_without_the_lock shows the hypothesis is needed.",
+             note=" F33 (Commit/Commit and Commit/Cancel on one upload interleaved) was found by the new dualcommit scenario and fixed."),
+ "C15": dict(text=" Round 7: merge_errors restated and merge_never_silently_short proved after fix F34; deletes of one-sided content are judged by success_only_if_both."),
+ "C17": dict(text=" Sub-check C17R replaces the hash-of-the-pattern tie by proof: the translator regenerates the regexp/syntax trees of referencePat, hostPat and repoPat as Lean terms, a derivative matcher is proved to decide their textbook language (matcher_correct), and the hand-written recognisers are proved to accept exactly those languages (isRepo_iff_repoPat, isHost_iff_hostPat, matchRef_isSome_iff_referencePat, matchRef_groups, matchRef_prefers_host); the engine 'rere' compares Go's regexp (through IsValidHost / IsValidRepository / ParseRelative) with the regenerated trees on generated strings including invalid UTF-8.",
+             note=" With C17R what remains trusted about the patterns is regexp/syntax's parser (the one regexp.MustCompile uses), the byte-level reading of rune classes (exact for ASCII classes and for complements under repetition; checked differentially), and leftmost-first priority of the optional host group (matchRef_prefers_host states it, the differential ties it).",
+             technique="Lean 4 proof (parse/print round trips; recognisers = languages of the regenerated regular expressions, verified derivative matcher) + grammar-directed differential against ociref"),
+ "C18": dict(text=" Round 7: clientDecode_never_panics_whatever_the_digest - no hypothesis on the form of the caller's digest arguments is needed any more (fix F32); the old excluded point is now the theorem clientDecode_refuses_ill_formed_digest.",
+             note=" F32 (a tag-shaped digest argument panicked the client) was found and fixed."),
+ "C19": dict(note=" Known finding F35: a password beginning with a NUL byte loses its leading NULs (docker-compatible Trim); judged by its own oracle class."),
+}
+for _p, _e in EXTRA.items():
+    for _k, _v in _e.items():
+        if _k == "technique": CLAIMED[_p][_k] = _v
+        else: CLAIMED[_p][_k] = CLAIMED[_p][_k] + _v
+
 def main():
     checks = []
     for p in ALL:
